@@ -437,3 +437,9 @@ package schema
 //@ func (String).Pats
 //@   nopanic
 //@   ensures result == typed(str_pats(self), [][]Pattern)
+//@ func (Choice).DefaultCase
+//@   nopanic
+//@   ensures result == sch_defaultcase(self)
+//@ func (Choice).Choices
+//@   nopanic
+//@   ensures len(result) == sch_nchoices(self) && forall(i, 0, len(result), result[i] == sch_choice(self, i) && result[i] != nil)
